@@ -39,6 +39,7 @@ type SpecEnv struct {
 // bound variable and body, so that the engine can instantiate/skolemize it itself.
 type quantRec struct {
 	text, bound, body string
+	exists            bool
 }
 
 func (env *SpecEnv) flipped(to int) *SpecEnv {
@@ -447,6 +448,14 @@ func (fx *FuncExec) evalIdent(env *SpecEnv, name string) Val {
 		if pv, ok := fx.paramVals[name]; ok {
 			return pv
 		}
+		// variables captured by this closure
+		for _, fv := range fx.fn.FreeVars {
+			if fv.Name() == name {
+				if v, ok := fx.vals[fv]; ok && v.Loc != nil {
+					return fx.Load(st, v.Loc)
+				}
+			}
+		}
 		// named results at return
 	}
 	// package level
@@ -729,7 +738,11 @@ func (fx *FuncExec) evalSpecCall(env *SpecEnv, x *ast.CallExpr) Val {
 			}
 			return bv(text)
 		}
-		return bv(fmt.Sprintf("(exists ((%s Int)) %s)", bn, and(rng, body.S)))
+		etext := fmt.Sprintf("(exists ((%s Int)) %s)", bn, and(rng, body.S))
+		if env.pol == 1 && env.rec != nil && !wasIn {
+			*env.rec = append(*env.rec, quantRec{text: etext, bound: bn, body: and(rng, body.S), exists: true})
+		}
+		return bv(etext)
 	case "seqput":
 		// seqput(w, at, s): the sequence w with the elements of slice s written at positions at..at+len(s)
 		w := fx.evalSpec(env, x.Args[0])
